@@ -167,3 +167,9 @@ func TestC20Survey(t *testing.T) {
 		}
 	}
 }
+
+func TestC01Enum(t *testing.T) { Enum01(t) }
+func TestC05Enum(t *testing.T) { Enum05(t) }
+func TestC07Enum(t *testing.T) { Enum07(t) }
+func TestC08Enum(t *testing.T) { Enum08(t) }
+func TestC11Enum(t *testing.T) { Enum11(t) }
